@@ -13,6 +13,15 @@
  *   B id fmt xi ii n c1..cn                         attribute bytes planted with POSIX, ncmpi_get_att_<T>
  *   L id put pad xi ii hasfill fillcode n c1..cn    direct call of ncmpix_[pad_]{putn,getn}_NC_<X>_<I>
  *   S id put pad xi ii hasfill fillcode lo hi       same with source values lo..hi
+ *   N id fmt wmode k p_0..p_{k-1} {kind vslot xi ii n c1..cn}*k
+ *        k nonblocking requests, each on a variable of its own (variables defined in vslot order), posted in the
+ *        order given, completed by ONE ncmpi_wait_all (wmode 0) or ONE ncmpi_wait in independent mode (wmode 1)
+ *        called with the request ids in the order p_0.. (indices into the posting order) and a statuses[] array.
+ *        kind 0 iget (the codes are planted in the file), 1 iput, 2 bput (the codes are the user values).
+ *        output: id wait_rc k { R post_rc status n code_1..code_n }*k   in posting order
+ *   W id fmt coll xi ii n c1..cn                    blocking ncmpi_put_varn_<T>[_all] (2 segments covering n elements)
+ *   M id fmt coll xi ii nv n c1..c(nv*n)            blocking ncmpi_mput_var_<T>[_all] on nv variables of n elements
+ *        output of W/M: id rc pending_requests close_rc n code_1..   (bytes found in the file afterwards)
  * xi: 0 BYTE 1 UBYTE 2 SHORT 3 USHORT 4 INT 5 UINT 6 FLOAT 7 DOUBLE 8 INT64 9 UINT64 10 CHAR
  * ii: 0 schar 1 uchar 2 short 3 ushort 4 int 5 uint 6 long 7 float 8 double 9 longlong 10 ulonglong 11 text
  * values ("codes"): integer types in decimal, float/double as the decimal value of their bit pattern.
@@ -127,6 +136,41 @@ static int api_get_att(int ncid, int ii, void *buf)
     switch (ii) {
 #define M(k, nm, ct) case k: return ncmpi_get_att_##nm(ncid, NC_GLOBAL, "a", (ct *)buf);
     ITYPES(M)
+#undef M
+    }
+    return -9999;
+}
+
+#define NTYPES(M) M(0, schar, signed char) M(1, uchar, unsigned char) M(2, short, short) M(3, ushort, unsigned short) \
+    M(4, int, int) M(5, uint, unsigned int) M(6, long, long) M(7, float, float) M(8, double, double) \
+    M(9, longlong, long long) M(10, ulonglong, unsigned long long)
+static int api_nb(int kind, int ncid, int varid, int ii, void *buf, int *req)
+{
+    switch (ii) {
+#define M(k, nm, ct) case k: return kind == 0 ? ncmpi_iget_var_##nm(ncid, varid, (ct *)buf, req) : \
+                                    kind == 1 ? ncmpi_iput_var_##nm(ncid, varid, (const ct *)buf, req) : \
+                                                ncmpi_bput_var_##nm(ncid, varid, (const ct *)buf, req);
+    NTYPES(M)
+#undef M
+    }
+    return -9999;
+}
+static int api_put_varn(int ncid, int varid, int ii, int coll, int num, MPI_Offset *const *starts, MPI_Offset *const *counts, const void *buf)
+{
+    switch (ii) {
+#define M(k, nm, ct) case k: return coll ? ncmpi_put_varn_##nm##_all(ncid, varid, num, starts, counts, (const ct *)buf) : \
+                                           ncmpi_put_varn_##nm(ncid, varid, num, starts, counts, (const ct *)buf);
+    NTYPES(M)
+#undef M
+    }
+    return -9999;
+}
+static int api_mput_var(int ncid, int ii, int coll, int nv, int *varids, void **bufs)
+{
+    switch (ii) {
+#define M(k, nm, ct) case k: return coll ? ncmpi_mput_var_##nm##_all(ncid, nv, varids, (ct *const *)bufs) : \
+                                           ncmpi_mput_var_##nm(ncid, nv, varids, (ct *const *)bufs);
+    NTYPES(M)
 #undef M
     }
     return -9999;
@@ -352,6 +396,143 @@ int main(int argc, char **argv)
                 printf("\n");
                 free(buf); free(raw);
             }
+        } else if (k == 'N') {
+            int fmt = atoi(tok[2]), wmode = atoi(tok[3]), nr = atoi(tok[4]);
+            int perm[16], kind[16], vslot[16], rxi[16], rii[16], varid[16], req[16], st[16], post[16], wreq[16];
+            long rn[16], j;
+            int first[16], ncid, dimid[16], e = 0, r, t, rcw, bad = 0, anyb = 0;
+            void *ubuf[16];
+            MPI_Offset voff[16];
+            if (nr < 1 || nr > 16) { fail(id, "args", 0); continue; }
+            t = 5;
+            for (r = 0; r < nr; r++) perm[r] = atoi(tok[t++]);
+            for (r = 0; r < nr && !bad; r++) {
+                if (t + 5 > nt) { bad = 1; break; }
+                kind[r] = atoi(tok[t]); vslot[r] = atoi(tok[t + 1]); rxi[r] = atoi(tok[t + 2]); rii[r] = atoi(tok[t + 3]);
+                rn[r] = atol(tok[t + 4]); first[r] = t + 5; t += 5 + rn[r];
+                if (t > nt || rn[r] <= 0 || rxi[r] > 9 || rii[r] > 10 || vslot[r] < 0 || vslot[r] >= nr) bad = 1;
+                if (kind[r] == 2) anyb = 1;
+            }
+            if (bad || t != nt) { fail(id, "arity", 0); continue; }
+            e = ncmpi_create(MPI_COMM_WORLD, path, cmode_of(fmt), MPI_INFO_NULL, &ncid);
+            if (e) { fail(id, "create", e); continue; }
+            for (j = 0; j < nr && !e; j++) {           /* variables in slot order */
+                char nm[16];
+                for (r = 0; r < nr; r++) if (vslot[r] == j) break;
+                if (r == nr) { e = -1; break; }
+                snprintf(nm, sizeof nm, "d%ld", j);
+                e = ncmpi_def_dim(ncid, nm, rn[r], &dimid[r]);
+                snprintf(nm, sizeof nm, "v%ld", j);
+                if (!e) e = ncmpi_def_var(ncid, nm, xnc[rxi[r]], 1, &dimid[r], &varid[r]);
+            }
+            if (!e) e = ncmpi_enddef(ncid);
+            for (r = 0; r < nr && !e; r++) e = ncmpi_inq_varoffset(ncid, varid[r], &voff[r]);
+            if (e) { fail(id, "define", e); ncmpi_close(ncid); continue; }
+            ncmpi_close(ncid);
+            {   /* plant: get variables hold the given external values, put variables 0x5A */
+                int fd = open(path, O_WRONLY);
+                for (r = 0; r < nr && fd >= 0; r++) {
+                    int xs = xsize[rxi[r]];
+                    unsigned char *raw = malloc((size_t)rn[r] * xs + 8);
+                    memset(raw, 0x5A, (size_t)rn[r] * xs);
+                    if (kind[r] == 0) for (j = 0; j < rn[r]; j++) be_store(raw + j * xs, xs, parse_code(tok[first[r] + j]));
+                    if (pwrite(fd, raw, (size_t)rn[r] * xs, voff[r]) != (ssize_t)((size_t)rn[r] * xs)) e = -1;
+                    free(raw);
+                }
+                if (fd < 0) e = -1; else close(fd);
+            }
+            if (e) { fail(id, "plant", 0); continue; }
+            e = ncmpi_open(MPI_COMM_WORLD, path, NC_WRITE, MPI_INFO_NULL, &ncid);
+            if (e) { fail(id, "reopen", e); continue; }
+            if (anyb) { e = ncmpi_buffer_attach(ncid, 1 << 20); if (e) { fail(id, "attach", e); ncmpi_close(ncid); continue; } }
+            if (wmode == 1) { e = ncmpi_begin_indep_data(ncid); if (e) { fail(id, "indep", e); ncmpi_close(ncid); continue; } }
+            for (r = 0; r < nr; r++) {
+                int is = isize[rii[r]];
+                ubuf[r] = malloc((size_t)rn[r] * is + 8);
+                if (kind[r] == 0) memset(ubuf[r], 0x5A, (size_t)rn[r] * is);
+                else for (j = 0; j < rn[r]; j++) mem_store(ubuf[r], j, is, parse_code(tok[first[r] + j]));
+                req[r] = NC_REQ_NULL;
+                post[r] = api_nb(kind[r], ncid, varid[r], rii[r], ubuf[r], &req[r]);
+            }
+            for (r = 0; r < nr; r++) { wreq[r] = req[perm[r]]; st[r] = -7777; }
+            rcw = (wmode == 1) ? ncmpi_wait(ncid, nr, wreq, st) : ncmpi_wait_all(ncid, nr, wreq, st);
+            if (wmode == 1) ncmpi_end_indep_data(ncid);
+            if (anyb) ncmpi_buffer_detach(ncid);
+            e = ncmpi_close(ncid);
+            printf("%s %d %d", id, rcw, nr);
+            {
+                int fd = open(path, O_RDONLY);
+                for (r = 0; r < nr; r++) {
+                    int w, stat = -7777;
+                    for (w = 0; w < nr; w++) if (perm[w] == r) stat = st[w];
+                    printf(" R %d %d %ld", post[r], stat, rn[r]);
+                    if (kind[r] == 0) {
+                        for (j = 0; j < rn[r]; j++) print_code(mem_load(ubuf[r], j, isize[rii[r]], isigned_[rii[r]]), isigned_[rii[r]]);
+                    } else {
+                        int xs = xsize[rxi[r]];
+                        unsigned char *raw = malloc((size_t)rn[r] * xs + 8);
+                        memset(raw, 0, (size_t)rn[r] * xs);
+                        if (fd >= 0) pread(fd, raw, (size_t)rn[r] * xs, voff[r]);
+                        for (j = 0; j < rn[r]; j++) print_code(be_load(raw + j * xs, xs, xsigned[rxi[r]]), xsigned[rxi[r]]);
+                        free(raw);
+                    }
+                    free(ubuf[r]);
+                }
+                if (fd >= 0) close(fd);
+            }
+            printf(" C %d\n", e);
+        } else if (k == 'W' || k == 'M') {
+            int fmt = atoi(tok[2]), coll = atoi(tok[3]), xi = atoi(tok[4]), ii = atoi(tok[5]);
+            int nv = (k == 'M') ? atoi(tok[6]) : 1;
+            int a = (k == 'M') ? 7 : 6;
+            long n = atol(tok[a]), j, tot = (long)nv * n;
+            int ncid, dimid, varid[16], e = 0, rc, xs = xsize[xi], is = isize[ii], v, pend = -1, rcc, fd;
+            MPI_Offset voff[16];
+            void *buf;
+            unsigned char *raw;
+            if (nt != a + 1 + tot || n < 2 || nv < 1 || nv > 16 || xi > 9 || ii > 10) { fail(id, "arity", 0); continue; }
+            e = ncmpi_create(MPI_COMM_WORLD, path, cmode_of(fmt), MPI_INFO_NULL, &ncid);
+            if (e) { fail(id, "create", e); continue; }
+            e = ncmpi_def_dim(ncid, "d", n, &dimid);
+            for (v = 0; v < nv && !e; v++) { char nm[16]; snprintf(nm, sizeof nm, "v%d", v); e = ncmpi_def_var(ncid, nm, xnc[xi], 1, &dimid, &varid[v]); }
+            if (!e) e = ncmpi_enddef(ncid);
+            for (v = 0; v < nv && !e; v++) e = ncmpi_inq_varoffset(ncid, varid[v], &voff[v]);
+            if (e) { fail(id, "define", e); ncmpi_close(ncid); continue; }
+            ncmpi_close(ncid);
+            raw = malloc((size_t)n * xs + 8);
+            memset(raw, 0x5A, (size_t)n * xs);
+            fd = open(path, O_WRONLY);
+            for (v = 0; v < nv && fd >= 0; v++) if (pwrite(fd, raw, (size_t)n * xs, voff[v]) != (ssize_t)((size_t)n * xs)) e = -1;
+            if (fd < 0) e = -1; else close(fd);
+            if (e) { fail(id, "plant", 0); free(raw); continue; }
+            e = ncmpi_open(MPI_COMM_WORLD, path, NC_WRITE, MPI_INFO_NULL, &ncid);
+            if (e) { fail(id, "reopen", e); free(raw); continue; }
+            buf = malloc((size_t)tot * is + 8);
+            for (j = 0; j < tot; j++) mem_store(buf, j, is, parse_code(tok[a + 1 + j]));
+            if (!coll) ncmpi_begin_indep_data(ncid);
+            if (k == 'W') {
+                MPI_Offset s0[1] = {0}, c0[1], s1[1], c1[1];
+                MPI_Offset *starts[2] = {s0, s1}, *counts[2] = {c0, c1};
+                c0[0] = n / 2; s1[0] = n / 2; c1[0] = n - n / 2;
+                rc = api_put_varn(ncid, varid[0], ii, coll, 2, starts, counts, buf);
+            } else {
+                void *bufs[16];
+                for (v = 0; v < nv; v++) bufs[v] = (char *)buf + (size_t)v * n * is;
+                rc = api_mput_var(ncid, ii, coll, nv, varid, bufs);
+            }
+            ncmpi_inq_nreqs(ncid, &pend);
+            if (!coll) ncmpi_end_indep_data(ncid);
+            rcc = ncmpi_close(ncid);
+            printf("%s %d %d %d %ld", id, rc, pend, rcc, tot);
+            fd = open(path, O_RDONLY);
+            for (v = 0; v < nv; v++) {
+                memset(raw, 0, (size_t)n * xs);
+                if (fd >= 0) pread(fd, raw, (size_t)n * xs, voff[v]);
+                for (j = 0; j < n; j++) print_code(be_load(raw + j * xs, xs, xsigned[xi]), xsigned[xi]);
+            }
+            if (fd >= 0) close(fd);
+            printf("\n");
+            free(buf); free(raw);
         } else {
             printf("%s ?\n", id);
         }
